@@ -56,6 +56,11 @@ bool Instance::parse_transaction(const char* txdata, bool parse_amounts) {
     }
     tx = parse_tx(p);
     if (!tx) return false;
+    if (tx->vin.empty()) {
+        // nothing to verify a script against (and amounts[0] below would not exist)
+        fprintf(stderr, "error: the transaction has no inputs\n");
+        return false;
+    }
     while (amounts.size() < tx->vin.size()) amounts.push_back(0);
     if (tx->HasWitness()) sigver = SigVersion::WITNESS_V0;
     return true;
